@@ -78,6 +78,7 @@ class ProofResult:
         self.log = ""
         self.lint = []
         self.cmd = ""
+        self.coqchk = None      # thorough tier: {"ok": bool, "axioms": [...], "wall_s": float}
 
 
 def run_proofs(prop):
@@ -122,6 +123,33 @@ def run_proofs(prop):
     res.ok = (res.discharged == res.obligations and not res.lint and res.obligations > 0)
     res.wall = time.time() - t0
     return res
+
+
+def run_coqchk(prop):
+    """Independent re-check of the compiled property file and everything it depends on (thorough tier)."""
+    t0 = time.time()
+    cc = subprocess.run(["timeout", "1500", "coqchk", "-silent", "-o", "-Q", COQ, "SKC", f"SKC.Props.{prop}"],
+                        capture_output=True, text=True)
+    out = cc.stdout + cc.stderr
+    axioms, bad = [], []
+    m = re.search(r"\* Axioms:(.*?)\n\s*\n\s*\*", out, flags=re.S)
+    if m:
+        axioms = [x.strip() for x in m.group(1).split("\n") if x.strip() and x.strip() != "<none>"]
+    for key in ("type-in-type", "unsafe (co)fixpoints", "positivity is assumed"):
+        mm = re.search(re.escape(key) + r":(.*?)\n\s*\n", out + "\n\n", flags=re.S)
+        if mm and mm.group(1).strip() not in ("<none>", ""):
+            bad.append(key + ": " + mm.group(1).strip())
+    ok = cc.returncode == 0 and "CONTEXT SUMMARY" in out and not bad
+    return {"ok": ok, "axioms": axioms, "unsafe": bad, "wall_s": round(time.time() - t0, 1),
+            "cmd": f"coqchk -silent -o -Q coq SKC SKC.Props.{prop}", "tail": "" if ok else out[-1500:]}
+
+
+ALLOWED_AXIOMS = {
+    "Coq.Logic.FunctionalExtensionality.functional_extensionality_dep",
+    "Coq.Reals.ClassicalDedekindReals.sig_not_dec",
+    "Coq.Reals.ClassicalDedekindReals.sig_forall_dec",
+    "Coq.Logic.Classical_Prop.classic",
+}
 
 
 class Model:
